@@ -58,7 +58,7 @@ func VerifCheck_escapecompile() {
 	s := string(rs)
 	e := Escape(s)
 	verifNote(e)
-	re, err := Compile("^(?:"+e+")$", RegexOptions(verifParamInt("options")))
+	re, err := Compile(`\A(?:`+e+`)\z`, RegexOptions(verifParamInt("options")))
 	if err != nil {
 		verifNote(err.Error())
 		verifFail("Escape-does-not-compile", "Compile(^(?:Escape(s))$) failed")
@@ -82,5 +82,448 @@ func VerifCheck_escapecompile() {
 		verifReach("nomatch")
 	}
 	verifAssert("matches-exactly-s", ok == same)
+	verifReach("end")
+}
+
+// verifSubject builds the subject string of a unit: mode "b" = n raw symbolic
+// bytes (invalid UTF-8 included), mode "s" = n symbolic Unicode scalars encoded.
+func verifSubject(n int) string {
+	if verifParam("mode") == "b" {
+		return string(verifBytes("b", n))
+	}
+	return string(verifScalars("t", n))
+}
+
+// verifByteOffsets: offs[i] = byte offset of rune i of s (each invalid byte is one rune); offs[len] = len(s).
+func verifByteOffsets(s string) []int {
+	var offs []int
+	for i := range s {
+		offs = append(offs, i)
+	}
+	return append(offs, len(s))
+}
+
+func verifSnapBytes(m *Match) []int {
+	if m == nil {
+		return []int{-1}
+	}
+	var out []int
+	gs := m.Groups()
+	for i := range gs {
+		out = append(out, len(gs[i].Captures))
+		for k := range gs[i].Captures {
+			bi, bl := gs[i].Captures[k].ByteRange()
+			out = append(out, bi, bl)
+		}
+	}
+	return out
+}
+
+// ---------------------------------------------------------------- C02: entry points agree
+
+func VerifSetup_entry() {
+	verifRE = verifCompile(verifParam("pattern"), verifParamInt("options"), verifParam("copts"))
+}
+
+func VerifCheck_entry() {
+	n := verifParamInt("n")
+	s := verifSubject(n)
+	re := verifRE
+	rs := []rune(s)
+	offs := verifByteOffsets(s)
+	// boolean calls == find calls
+	bs, err := re.MatchString(s)
+	if err != nil {
+		verifFail("error", err.Error())
+	}
+	br, err := re.MatchRunes(rs)
+	if err != nil {
+		verifFail("error", err.Error())
+	}
+	ms, err := re.FindStringMatch(s)
+	if err != nil {
+		verifFail("error", err.Error())
+	}
+	mr, err := re.FindRunesMatch(rs)
+	if err != nil {
+		verifFail("error", err.Error())
+	}
+	ss, sr := verifSnap(ms), verifSnap(mr)
+	verifNoteInts("FindStringMatch", ss)
+	verifNoteInts("FindRunesMatch", sr)
+	if mr != nil {
+		verifReach("match")
+	} else {
+		verifReach("nomatch")
+	}
+	verifAssert("MatchRunes==(FindRunesMatch!=nil)", br == (mr != nil))
+	verifAssert("MatchString==(FindStringMatch!=nil)", bs == (ms != nil))
+	verifAssert("MatchString==MatchRunes", bs == br)
+	verifAssert("FindStringMatch==FindRunesMatch", verifEqInts(ss, sr))
+	st := 0
+	if re.RightToLeft() {
+		st = len(s)
+	}
+	m0, err := re.FindStringMatchStartingAt(s, st)
+	if err != nil {
+		verifFail("error-startingat", err.Error())
+	}
+	verifAssert("FindStringMatchStartingAt(edge)==FindStringMatch", verifEqInts(verifSnap(m0), ss))
+	rst := 0
+	if re.RightToLeft() {
+		rst = len(rs)
+	}
+	m1, err := re.FindRunesMatchStartingAt(rs, rst)
+	if err != nil {
+		verifFail("error-startingat", err.Error())
+	}
+	verifAssert("FindRunesMatchStartingAt(edge)==FindRunesMatch", verifEqInts(verifSnap(m1), sr))
+	// byte ranges of the string match = rune spans mapped through the decode widths
+	if ms != nil {
+		bi, bl := ms.ByteRange()
+		verifAssert("ByteRange==mapped-rune-span", bi == offs[ms.RuneIndex] && bi+bl == offs[ms.RuneIndex+ms.RuneLength])
+	}
+	// the match sequence as seen by iteration, find-all (runes and bytes), ReplaceFunc and Split
+	var seq [][2]int
+	for m := mr; m != nil; {
+		seq = append(seq, [2]int{m.RuneIndex, m.RuneLength})
+		if len(seq) > len(rs)+2 {
+			verifFail("iteration-does-not-terminate", "")
+		}
+		m, err = re.FindNextMatch(m)
+		if err != nil {
+			verifFail("error", err.Error())
+		}
+	}
+	var wantR, wantB []int
+	prevEnd := -1
+	for _, p := range seq {
+		adj := p[0]
+		if re.RightToLeft() {
+			adj = p[0] + p[1]
+		}
+		if p[1] == 0 && adj == prevEnd {
+			continue
+		}
+		wantR = append(wantR, p[0], p[0]+p[1])
+		wantB = append(wantB, offs[p[0]], offs[p[0]+p[1]])
+		if re.RightToLeft() {
+			prevEnd = p[0]
+		} else {
+			prevEnd = p[0] + p[1]
+		}
+	}
+	ar, err := re.FindAllRunesIndex(rs, -1)
+	if err != nil {
+		verifFail("error", err.Error())
+	}
+	var flat []int
+	for _, p := range ar {
+		flat = append(flat, p...)
+	}
+	verifAssert("FindAllRunesIndex==iteration", verifEqInts(flat, wantR))
+	as, err := re.FindAllStringIndex(s, -1)
+	if err != nil {
+		verifFail("error", err.Error())
+	}
+	flat = nil
+	for _, p := range as {
+		flat = append(flat, p...)
+	}
+	verifNoteInts("FindAllStringIndex", flat)
+	verifNoteInts("expected-bytes", wantB)
+	verifAssert("FindAllStringIndex==iteration-in-bytes", verifEqInts(flat, wantB))
+	if verifParam("mode") != "b" {
+		var seen []int
+		_, err = re.ReplaceFunc(s, func(m Match) string {
+			seen = append(seen, m.RuneIndex, m.RuneLength)
+			return ""
+		}, -1, -1)
+		if err != nil {
+			verifFail("error-replacefunc", err.Error())
+		}
+		var want []int
+		for _, p := range seq {
+			want = append(want, p[0], p[1])
+		}
+		verifNoteInts("ReplaceFunc-saw", seen)
+		verifAssert("ReplaceFunc-enumeration==iteration", verifEqInts(seen, want))
+		if !re.RightToLeft() {
+			parts, err := re.Split(s, -1)
+			if err != nil {
+				verifFail("error-split", err.Error())
+			}
+			ng := len(re.GetGroupNumbers()) - 1
+			verifAssert("Split-piece-count", len(parts) == len(seq)*(1+ng)+1)
+		}
+	}
+	verifReach("end")
+}
+
+// ---------------------------------------------------------------- C08: well-formed matches, exact index conversion
+
+func VerifSetup_wellformed() {
+	verifRE = verifCompile(verifParam("pattern"), verifParamInt("options"), verifParam("copts"))
+}
+
+func VerifCheck_wellformed() {
+	n := verifParamInt("n")
+	s := verifSubject(n)
+	re := verifRE
+	rs := []rune(s)
+	offs := verifByteOffsets(s)
+	m, err := re.FindStringMatch(s)
+	if err != nil {
+		verifFail("error", err.Error())
+	}
+	cnt := 0
+	for m != nil {
+		cnt++
+		if cnt > len(rs)+2 {
+			verifFail("iteration-does-not-terminate", "")
+		}
+		verifReach("match")
+		gs := m.Groups()
+		verifAssert("group0-one-capture", len(gs) > 0 && len(gs[0].Captures) == 1 &&
+			gs[0].Captures[0].RuneIndex == m.RuneIndex && gs[0].Captures[0].RuneLength == m.RuneLength)
+		for gi := range gs {
+			g := &gs[gi]
+			for ci := range g.Captures {
+				c := &g.Captures[ci]
+				verifAssert("capture-in-bounds", c.RuneIndex >= 0 && c.RuneLength >= 0 && c.RuneIndex+c.RuneLength <= len(rs))
+				want := rs[c.RuneIndex : c.RuneIndex+c.RuneLength]
+				got := c.Runes()
+				same := len(got) == len(want)
+				if same {
+					for i := range got {
+						same = verifAnd(same, got[i] == want[i])
+					}
+				}
+				verifAssert("Runes()==slice", same)
+				verifAssert("String()==slice", c.String() == string(want))
+				bi, bl := c.ByteRange()
+				verifAssert("ByteRange==utf8-span", bi == offs[c.RuneIndex] && bi+bl == offs[c.RuneIndex+c.RuneLength])
+				if verifParam("mode") == "b" {
+					verifAssert("ByteRange-addresses-original-bytes", bi+bl <= len(s))
+				}
+			}
+			if len(g.Captures) > 0 {
+				last := &g.Captures[len(g.Captures)-1]
+				verifAssert("embedded-capture==last", g.RuneIndex == last.RuneIndex && g.RuneLength == last.RuneLength)
+				verifReach("group-with-capture")
+			} else {
+				verifAssert("unset-group-empty", g.RuneLength == 0)
+			}
+		}
+		m, err = re.FindNextMatch(m)
+		if err != nil {
+			verifFail("error", err.Error())
+		}
+	}
+	verifReach("end")
+}
+
+// ---------------------------------------------------------------- C09: Replace and Split are folds
+
+func VerifSetup_replace() {
+	verifRE = verifCompile(verifParam("pattern"), verifParamInt("options"), verifParam("copts"))
+}
+
+// verifExpand: independent expansion of a replacement pattern against one match.
+// Grammar: $$ -> $; $& whole match; $` text before; $' text after; $+ last group; $_ whole input;
+// $n / ${n} group number; ${name} group name; anything else literal.
+func verifExpand(re *Regexp, rep string, m *Match, text []rune) string {
+	out := ""
+	gs := m.Groups()
+	groupText := func(num int) (string, bool) {
+		nums := re.GetGroupNumbers()
+		for i, k := range nums {
+			if k == num {
+				if len(gs[i].Captures) == 0 {
+					return "", true
+				}
+				c := gs[i].Captures[len(gs[i].Captures)-1]
+				return string(text[c.RuneIndex : c.RuneIndex+c.RuneLength]), true
+			}
+		}
+		return "", false
+	}
+	r := []rune(rep)
+	for i := 0; i < len(r); i++ {
+		if r[i] != '$' || i+1 >= len(r) {
+			out += string(r[i])
+			continue
+		}
+		c := r[i+1]
+		switch {
+		case c == '$':
+			out += "$"
+			i++
+		case c == '&':
+			out += string(text[m.RuneIndex : m.RuneIndex+m.RuneLength])
+			i++
+		case c == '`':
+			out += string(text[:m.RuneIndex])
+			i++
+		case c == '\'':
+			out += string(text[m.RuneIndex+m.RuneLength:])
+			i++
+		case c == '_':
+			out += string(text)
+			i++
+		case c == '+':
+			nums := re.GetGroupNumbers()
+			last := nums[len(nums)-1]
+			t, _ := groupText(last)
+			out += t
+			i++
+		case c >= '0' && c <= '9':
+			// longest number that names an existing group
+			j := i + 1
+			num, best, bestJ := 0, -1, 0
+			for j < len(r) && r[j] >= '0' && r[j] <= '9' {
+				num = num*10 + int(r[j]-'0')
+				j++
+				if _, ok := groupText(num); ok {
+					best, bestJ = num, j
+				}
+			}
+			if best < 0 {
+				out += "$"
+				continue
+			}
+			t, _ := groupText(best)
+			out += t
+			i = bestJ - 1
+		case c == '{':
+			j := i + 2
+			for j < len(r) && r[j] != '}' {
+				j++
+			}
+			if j >= len(r) {
+				out += "$"
+				continue
+			}
+			name := string(r[i+2 : j])
+			num := re.GroupNumberFromName(name)
+			if num < 0 {
+				out += "$"
+				continue
+			}
+			t, _ := groupText(num)
+			out += t
+			i = j
+		default:
+			out += "$"
+		}
+	}
+	return out
+}
+
+func VerifCheck_replace() {
+	n := verifParamInt("n")
+	s := string(verifScalars("t", n))
+	re := verifRE
+	rs := []rune(s)
+	rep := verifParam("rep")
+	if k := verifParamInt("repk"); k > 0 {
+		// symbolic replacement over the $-grammar alphabet
+		b := make([]byte, k)
+		for i := range b {
+			b[i] = verifByteIn("rep"+strconv.Itoa(i), "${}012a&`'+_x")
+		}
+		rep = string(b)
+	}
+	rtl := re.RightToLeft()
+	startAt := verifConcrete(verifInt("startAt", -1, len(s)))
+	count := verifConcrete(verifInt("count", -1, 3))
+	got, err := re.Replace(s, rep, startAt, count)
+	if err != nil {
+		// only a malformed startAt may be rejected
+		verifNote(err.Error())
+		verifReach("replace-error")
+		ok := false
+		for i := range s {
+			if i == startAt {
+				ok = true
+			}
+		}
+		verifAssert("error-only-for-misaligned-startAt", !ok && startAt != len(s) && startAt != -1)
+		return
+	}
+	// fold over the match sequence
+	st := startAt
+	m, err := re.FindStringMatchStartingAt(s, st)
+	if err != nil {
+		verifFail("error-find", err.Error())
+	}
+	type piece struct {
+		idx, ln int
+		exp     string
+	}
+	var ps []piece
+	for m != nil && (count < 0 || len(ps) < count) {
+		ps = append(ps, piece{m.RuneIndex, m.RuneLength, verifExpand(re, rep, m, rs)})
+		if len(ps) > len(rs)+2 {
+			verifFail("iteration-does-not-terminate", "")
+		}
+		m, err = re.FindNextMatch(m)
+		if err != nil {
+			verifFail("error-find", err.Error())
+		}
+	}
+	if rtl {
+		for i, j := 0, len(ps)-1; i < j; i, j = i+1, j-1 {
+			ps[i], ps[j] = ps[j], ps[i]
+		}
+	}
+	want := ""
+	prev := 0
+	for _, p := range ps {
+		want += string(rs[prev:p.idx]) + p.exp
+		prev = p.idx + p.ln
+	}
+	want += string(rs[prev:])
+	if count == 0 {
+		want = s
+	}
+	verifNote(got)
+	verifNote(want)
+	if len(ps) > 0 {
+		verifReach("replaced")
+	} else {
+		verifReach("nothing-replaced")
+	}
+	verifAssert("Replace==fold", got == want)
+	// ReplaceFunc with the same expansion
+	gf, err := re.ReplaceFunc(s, func(mm Match) string { return verifExpand(re, rep, &mm, rs) }, startAt, count)
+	if err != nil {
+		verifFail("error-replacefunc", err.Error())
+	}
+	verifAssert("ReplaceFunc==Replace", gf == got)
+	// $& is the identity
+	id, err := re.Replace(s, "$&", startAt, count)
+	if err != nil {
+		verifFail("error-identity", err.Error())
+	}
+	verifAssert("Replace($&)==input", id == s)
+	// Split: pieces re-joined with the matched texts rebuild the input
+	if startAt == -1 && count == -1 {
+		parts, err := re.Split(s, -1)
+		if err != nil {
+			verifFail("error-split", err.Error())
+		}
+		ng := len(re.GetGroupNumbers()) - 1
+		verifAssert("Split-piece-count", len(parts) == len(ps)*(1+ng)+1)
+		if len(parts) == len(ps)*(1+ng)+1 {
+			re2 := ""
+			for i, p := range ps {
+				re2 += parts[i*(1+ng)] + string(rs[p.idx:p.idx+p.ln])
+			}
+			re2 += parts[len(parts)-1]
+			verifAssert("Split-rejoin==input", re2 == s)
+			verifReach("split-leg")
+		}
+	}
 	verifReach("end")
 }
